@@ -1016,3 +1016,98 @@ pub fn http_client_batch_positional() -> Value {
 		json!({"probe":"http_client_batch_positional","disagrees":false,"reply_sequences_tried":tried,"bound":"batch of 3 after a warm-up call; all reply sequences of length 1..3 over ids start-1..=start+3"})
 	})
 }
+
+// ------------------------------------------------------------------------------------------
+/// POST `body` to the real server's tower service in-process; returns (status, body text).
+async fn post_in_process(cfg: jsonrpsee_server::ServerConfig, body: &str) -> (u16, String) {
+	use http_body_util::BodyExt;
+	use tower::Service;
+	let (stop_handle, _server_handle) = jsonrpsee_server::stop_channel();
+	let mut module = RpcModule::new(());
+	module.register_method("add", |p, _, _| { let v: Vec<u64> = p.parse().unwrap_or_default(); v.iter().sum::<u64>() }).unwrap();
+	module.register_method("echo", |p, _, _| p.one::<String>().unwrap_or_default()).unwrap();
+	module.register_blocking_method("boom", |_, _, _| -> u64 { panic!("handler panics") }).unwrap();
+	module.register_async_method("aadd", |p, _, _| async move { let v: Vec<u64> = p.parse().unwrap_or_default(); v.iter().sum::<u64>() }).unwrap();
+	let mut svc = jsonrpsee_server::Server::builder().set_config(cfg).to_service_builder().build(module, stop_handle);
+	let req = http::Request::builder().method("POST").uri("http://localhost/").header("content-type", "application/json")
+		.body(jsonrpsee_server::HttpBody::from(body.to_string())).unwrap();
+	let rp = svc.call(req).await.unwrap();
+	let status = rp.status().as_u16();
+	let bytes = rp.into_body().collect().await.map(|b| b.to_bytes()).unwrap_or_default();
+	(status, String::from_utf8_lossy(&bytes).to_string())
+}
+
+/// C01 / C02: classification and answers of single messages and batches over HTTP (in-process tower service).
+pub fn server_message_classification() -> Value {
+	rt().block_on(async {
+		// (message, expected reply as JSON; Null = no reply (empty or `null` body))
+		let err = |code: i64, id: Value| json!({"code": code, "id": id});
+		let cases: Vec<(&str, Value)> = vec![
+			(r#"{"jsonrpc":"2.0","id":7,"method":"add","params":[1,2]}"#, json!({"result":3,"id":7})),
+			(r#"  {"jsonrpc":"2.0","id":"s","method":"aadd","params":[4,5]}"#, json!({"result":9,"id":"s"})),
+			(r#"{"jsonrpc":"2.0","id":null,"method":"add","params":[1]}"#, json!({"result":1,"id":null})),
+			(r#"{"jsonrpc":"2.0","id":7,"method":"add","params":[1,2]}"#, json!({"result":3,"id":7})),
+			(r#"{"jsonrpc":"2.0","id":18446744073709551615,"method":"add","params":[]}"#, json!({"result":0,"id":18446744073709551615u64})),
+			(r#"{"jsonrpc":"2.0","id":1,"method":"nope"}"#, err(-32601, json!(1))),
+			(r#"{"jsonrpc":"2.0","id":41,"method":"boom"}"#, err(-32603, json!(41))),
+			(r#"{"jsonrpc":"2.0","id":"forty-two","method":"boom"}"#, err(-32603, json!("forty-two"))),
+			(r#"{"jsonrpc":"2.0","method":"add","params":[1,2]}"#, Value::Null),
+			(r#"{"jsonrpc":"2.0","id":3}"#, err(-32600, json!(3))),
+			(r#"{"jsonrpc":"2.0","id":"abc","foo":1}"#, err(-32600, json!("abc"))),
+			(r#"{"foo":1}"#, err(-32700, Value::Null)),
+			(r#"{"jsonrpc":"2.0","id":1,"method":"add","params":[1,2]}x"#, err(-32700, Value::Null)),
+			(r#"{"jsonrpc":"2.0","id":1,"method":"add","params":[1,2]}}"#, err(-32700, Value::Null)),
+			(r#"{"jsonrpc":"2.0","id":1,"method":"add","params":[1,2]}{"jsonrpc":"2.0","id":2,"method":"add","params":[1]}"#, err(-32700, Value::Null)),
+			(r#"{"jsonrpc":"2.0","id":1,"method":"add""#, err(-32700, Value::Null)),
+			// batches
+			(r#"[{"jsonrpc":"2.0","id":1,"method":"add","params":[1,2]},{"jsonrpc":"2.0","method":"add","params":[1]},{"jsonrpc":"2.0","id":9}]"#, json!([{"result":3,"id":1}, {"code":-32600,"id":9}])),
+			(r#"[{"jsonrpc":"2.0","method":"add","params":[1]},{"foo":"boo"}]"#, json!([{"code":-32600,"id":null}])),
+			(r#"[123,{"jsonrpc":"2.0","method":"add","params":[1]}]"#, json!([{"code":-32600,"id":null}])),
+			(r#"[1,{"jsonrpc":"2.0","method":"add"},{"jsonrpc":"2.0","id":9}]"#, json!([{"code":-32600,"id":null},{"code":-32600,"id":9}])),
+			(r#"[{"jsonrpc":"2.0","method":"add","params":[1]},{"jsonrpc":"2.0","method":"add"}]"#, Value::Null),
+			(r#"[]"#, err(-32600, Value::Null)),
+			(r#"[{"jsonrpc":"2.0","id":1,"method":"add","params":[1,2]},{"jsonrpc":"2.0","id":2,"method":"echo","params":["x"]},{"jsonrpc":"2.0","id":3,"method":"aadd","params":[5]}]"#, json!([{"result":3,"id":1},{"result":"x","id":2},{"result":5,"id":3}])),
+		];
+		fn shape(v: &Value) -> Value {
+			match v {
+				Value::Array(a) => Value::Array(a.iter().map(shape).collect()),
+				Value::Object(o) if o.contains_key("error") => json!({"code": o["error"]["code"], "id": o["id"]}),
+				Value::Object(o) if o.contains_key("result") => json!({"result": o["result"], "id": o["id"]}),
+				other => other.clone(),
+			}
+		}
+		let mut tried = 0;
+		for (msg, want) in &cases {
+			tried += 1;
+			let (status, body) = post_in_process(jsonrpsee_server::ServerConfig::default(), msg).await;
+			let got = if body.trim().is_empty() { Value::Null } else { serde_json::from_str::<Value>(&body).map(|v| shape(&v)).unwrap_or(json!({"unparsable": body})) };
+			let well_formed = body.trim().is_empty() || serde_json::from_str::<Value>(&body).map(|v| match &v { Value::Array(a) => a.iter().all(|e| e["jsonrpc"] == json!("2.0")), Value::Null => true, o => o["jsonrpc"] == json!("2.0") }).unwrap_or(false);
+			if &got != want || !well_formed {
+				return json!({"probe":"server_message_classification","disagrees":true,"input":msg,"observed":format!("HTTP {status}: {body}"),"expected":want.to_string()});
+			}
+		}
+		// batch limit: exactly `limit` entries pass, one more is answered -32010; disabled batches -32005
+		for (n, limit, want_code) in [(3usize, 3u32, None), (4, 3, Some(-32010)), (1, 1, None), (2, 1, Some(-32010))] {
+			tried += 1;
+			let entries: Vec<Value> = (0..n).map(|i| json!({"jsonrpc":"2.0","id":i,"method":"add","params":[i]})).collect();
+			let cfg = jsonrpsee_server::ServerConfig::builder().set_batch_request_config(jsonrpsee_server::BatchRequestConfig::Limit(limit)).build();
+			let (_s, body) = post_in_process(cfg, &Value::Array(entries).to_string()).await;
+			let v: Value = serde_json::from_str(&body).unwrap_or(Value::Null);
+			let ok = match want_code { None => v.as_array().map(|a| a.len() == n && a.iter().enumerate().all(|(i, e)| e["result"] == json!(i))).unwrap_or(false), Some(c) => v["error"]["code"] == json!(c) && v["id"].is_null() };
+			if !ok {
+				return json!({"probe":"server_message_classification","disagrees":true,"input":format!("batch of {n} calls with BatchRequestConfig::Limit({limit})"),"observed":body,
+					"expected": match want_code { None => "an array with the n results in order".to_string(), Some(c) => format!("one error {c} with id null") }});
+			}
+		}
+		{
+			tried += 1;
+			let cfg = jsonrpsee_server::ServerConfig::builder().set_batch_request_config(jsonrpsee_server::BatchRequestConfig::Disabled).build();
+			let (_s, body) = post_in_process(cfg, r#"[{"jsonrpc":"2.0","id":1,"method":"add","params":[1]}]"#).await;
+			let v: Value = serde_json::from_str(&body).unwrap_or(Value::Null);
+			if v["error"]["code"] != json!(-32005) || !v["id"].is_null() {
+				return json!({"probe":"server_message_classification","disagrees":true,"input":"batch while batching is disabled","observed":body,"expected":"one error -32005 with id null"});
+			}
+		}
+		json!({"probe":"server_message_classification","disagrees":false,"inputs_tried":tried})
+	})
+}
